@@ -9,7 +9,8 @@ from harness.core import Outcome, f2b, b2f
 ID = "C05"
 LEAN_TARGETS = ["BeyondVerif.Props.C05", "BeyondVerif.Props.C05Cart", "BeyondVerif.Props.C05Term", "BeyondVerif.Props.C05Universal",
                 "BeyondVerif.Lemmas.TwoBody", "BeyondVerif.Lemmas.TwoBodyHyp", "BeyondVerif.Lemmas.TwoBody3D", "BeyondVerif.Lemmas.PropagCart",
-                "BeyondVerif.Lemmas.NewtonKepler", "BeyondVerif.Lemmas.NewtonKeplerApogee", "BeyondVerif.Lemmas.NewtonHyp", "BeyondVerif.Lemmas.Universal"]
+                "BeyondVerif.Lemmas.NewtonKepler", "BeyondVerif.Lemmas.NewtonKeplerApogee", "BeyondVerif.Lemmas.NewtonHyp", "BeyondVerif.Lemmas.Universal",
+                "BeyondVerif.Witness.C05"]
 THEOREMS = [
     "BeyondVerif.C05.meanMotion_formula",
     "BeyondVerif.C05.kepler_elements_constant",
@@ -87,6 +88,8 @@ THEOREMS = [
     "BeyondVerif.C05.j2_inverse_dates",
     "BeyondVerif.C05.j2_step_mod_dates",
     "BeyondVerif.C05.j2_node_rate_eq_sso",
+    "BeyondVerif.C05W.sin_fmod_sub_add",
+    "BeyondVerif.C05W.state_in_equatorial_plane_put_on_node_line",
 ]
 LEVEL_TEXT = ("Lean theorems over R about the element update translated from kepler.py, j2.py and Infos.n on every run: a, e, i, node, perigee constant and "
               "M advanced by sqrt(mu/|a|^3) dt for all inputs; composition and inverse exact for all t1, t2; one period adds exactly 2 pi. "
@@ -111,7 +114,11 @@ LEVEL_TEXT = ("Lean theorems over R about the element update translated from kep
               "every Earth-orientation environment) and in any scale when the offset to TAI does not change (UTC when no leap second intervenes); UTC -> TT spelled out "
               "(readings minus 32.184 s minus TAI-UTC). The propagator object re-reads the orbit (elements and epoch) on every call (history independence). "
               "Differential correspondence of the whole chain (setter on a cartesian orbit, update, M2E, eccentric -> true -> cartesian, all in Lean) against Orbit.propagate from every form, "
-              "around the Earth, the Moon and the Sun, on single calls and on call histories with in-place modifications.")
+              "around the Earth, the Moon and the Sun, on single calls and on call histories with in-place modifications, inclinations over the whole of (0, pi) "
+              "including quasi-equatorial orbits on both sides (sin i down to 1e-5). "
+              "OPEN FINDING (C05W.state_in_equatorial_plane_put_on_node_line): the translated cartesian -> keplerian step puts every state with z = 0 on the node line "
+              "(z / sin i); for an exactly equatorial orbit that is 0/0 — NaN (prograde) or a wrong perigee (retrograde) in the code; the cartesian-in theorems "
+              "(kepler_periodic_cartesian_in_out, kepler_cart_*) are about that setter and say nothing about whether its elements describe the state.")
 LEVEL_NOTE = ("R -> double gap covered only by tolerance-bounded correspondence; form conversions other than the two chains named above (C01) enter as hypotheses of the cartesian-level "
               "composition / inverse theorems; the two-body and universal-variable theorems are about the EXACT solution of Kepler's equation, the code returns the Newton iterate whose residual "
               "is bounded by kepler_anomaly_residual(_hyperbolic); termination is proved over R, the double-precision iteration is covered by the 1 s watchdog and the fuel-bounded compiled model; "
@@ -146,6 +153,10 @@ ASSUMPTIONS = ["J2 clause: domain 0 <= e < 1, a > 0, mu > 0 (the guards of j2_ra
                "cartesian-level composition / inverse take the keplerian_mean <-> cartesian round trip (up to 2 pi k on M for e < 1) as hypothesis hRT (C01); the 2 pi-periodicity hPer of "
                "mean -> cartesian is now proved for the translated chain (meanToCart_shiftM), and periodicity needs no round trip (kepler_periodic_cartesian_in_out)",
                "theorems are over R; the implementation computes in IEEE doubles",
+               "inclination: 0 < i < pi with sin i >= 1e-5 is generated everywhere (gen_inclination: 22 % of all orbits quasi-equatorial, prograde and retrograde alike); "
+               "states that pass through Form._cartesian_to_keplerian are allowed the relative error 4e-16 / sin^2 i of its z / sin(i) (observed 5.5e-17 / sin^2 i; "
+               "4e-6 at sin i = 1e-5, inside the property's 1e-5), node-related angles 1 / sin i; 0 < sin i < 1e-5 is not generated (the same loss exceeds 1e-5 below "
+               "sin i ~ 2e-6: part of the open finding C05-equatorial-prograde-nan); sin i = 0 exactly is probed by the family exactly-equatorial-* (open findings)",
                "frames are only labels here: the propagators never change the frame; the attracting body enters through mu only (Earth, Moon, Sun in the runs)"]
 NOT_COVERED = ["the date arithmetic itself (Date construction, offsets, `-`, `+`) is C03's subject: here its model is used, and tied to the propagators by the dated cases only; "
                "`datetime` arguments are refused by the library (TypeError; tallied by the oracle), numpy datetime64 / float arguments likewise",
@@ -160,6 +171,11 @@ OPEN = ["termination of Form.M2E is proved over R (kepler_m2e_terminates, kepler
         "seeded change C05-m2 (cap of 50 passes) is reported as `no-failing-input-found`: since the fixes b41fd8b (reduction) and 31f549a (clamped start) no input in the domain needs more "
         "than 31 passes, and a differential run of capped vs uncapped M2E over 4e5 inputs (e up to 1 +- 1e-16, |M| up to 1e300) differs only for |M| > 3e16 with 1 - e < 1e-6, "
         "far outside the domain: within the property's domain the change has no observable effect; it is caught because the extractor refuses any loop that can be left before convergence",
+        "OPEN FINDINGS C05-equatorial-prograde-nan / C05-equatorial-retrograde-node-line: Kepler / J2 propagation of an exactly equatorial state given in cartesian, "
+        "spherical or cylindrical form returns NaN (prograde) or starts from a point on the node line (retrograde); proposed_fixes/C05-equatorial-argument-of-latitude.diff "
+        "(with it applied: extraction, proofs, correspondence and oracle pass except the witness, which then has to be flipped into a regression theorem); "
+        "a theorem that the setter's elements DESCRIBE the state (kpKeplToCart after kpCartToKepl = id for sin i != 0, e != 0) is C01's cart_kepl_cart_of_image for its own "
+        "copy of the translation and is not re-proved here: a changed guard in _cartesian_to_keplerian is caught by the oracle (quasi-equatorial families), not by a C05 proof",
         "known findings C05-hyperbolic-M2E-overflow (31f549a) and C05-m2e-no-return-ell (b41fd8b) are fixed in /repo; their oracle families stay alive (reversing either fix gives a VIOLATION with a replay)"]
 RULE = ("correspondence: random orbits (e log/uniform in [1e-4,0.95] and [1.01,10], perigee radius 6.6e6..5e7 m around the Earth, scaled by 0.3 around the Moon and 3000 around the Sun "
         "(frames of beyond.env.solarsystem: a second and third mu), every form the conic admits, dt in +-30 d quantised to ms) through "
@@ -178,7 +194,11 @@ RULE = ("correspondence: random orbits (e log/uniform in [1e-4,0.95] and [1.01,1
         "every Kepler / J2 clause again with the dates handed in as Date objects (gen_dated: environment x epoch scale x first target scale through all 3 x 36 combinations, 2 (12) sweeps per "
         "propagator; the composition legs, the way back and the period in further drawn scales or as timedelta; expected values from the elapsed time between the instants computed by the harness; "
         "the result must carry the requested date and scale); iter(dates=mixed scales), iter(start in another scale, stop, step), datetime arguments (api_case); "
-        "J2 on hyperbolic orbits is probed and recorded, not judged")
+        "J2 on hyperbolic orbits is probed and recorded, not judged; "
+        "inclinations (every generator): 78 % uniform in [0.05, pi - 0.05], 22 % quasi-equatorial with sin i log-uniform in [1e-5, 5e-2], half prograde half retrograde "
+        "(families suffixed :quasi-equatorial-prograde / -retrograde); 6 % of the orbits with node / perigee / anomaly on a multiple of pi/2; "
+        "exactly equatorial states z = v_z = 0 built without the library (60 (400) per run; prograde / retrograde, both conics, cartesian / spherical / cylindrical, Kepler and J2): "
+        "finite, propagate(0) = the state, universal-variable solution, J2 keeps plane, |h| and energy")
 
 REPO = core.REPO
 KEPLER_PY = os.path.join(REPO, "beyond", "propagators", "kepler.py")
@@ -668,8 +688,40 @@ def gen_elts(rng, conic):
         e = 1 + math.exp(rng.uniform(math.log(0.01), math.log(9.0))) if rng.random() < 0.5 else rng.uniform(1.01, 10.0)
         a = -rp / (e - 1)
         M = rng.uniform(-4, 4)
-    i = rng.uniform(0.05, math.pi - 0.05)
-    return [a, e, i, rng.uniform(0, TWO_PI), rng.uniform(0, TWO_PI), M]
+    i = gen_inclination(rng)
+    ang = [rng.uniform(0, TWO_PI), rng.uniform(0, TWO_PI)]
+    if rng.random() < 0.06:
+        # node / perigee / anomaly exactly on an axis (multiples of pi/2: h_x = 0 or h_y = 0, satellite on / across the node line)
+        ang[rng.randrange(2)] = rng.randrange(4) * math.pi / 2
+        if rng.random() < 0.5:
+            M = rng.randrange(4) * math.pi / 2 if conic == "ell" else 0.0
+    return [a, e, i, ang[0], ang[1], M]
+
+
+SIN_I_MIN = 1e-5      # quasi-equatorial orbits are generated down to sin i = 1e-5 (0.0006 deg from the equator), prograde AND retrograde
+
+
+def gen_inclination(rng):
+    """the whole range 0 < i < pi: 78 % ordinary inclinations, 22 % QUASI-EQUATORIAL ones — sin i log-uniform in [1e-5, 5e-2] on
+    either side (i -> 0 prograde, i -> pi retrograde), where `Form._cartesian_to_keplerian` divides by sin i and every guard a
+    maintainer may put on `sin(i)` has its other side.  (Below sin i ~ 2e-6 the cartesian way in loses more than the property's
+    1e-5: see ill_conditioning; the exactly equatorial state is probed by `equatorial_case`.)"""
+    if rng.random() < 0.78:
+        return rng.uniform(0.05, math.pi - 0.05)
+    s = 10 ** rng.uniform(math.log10(SIN_I_MIN), math.log10(0.05))
+    return s if rng.random() < 0.5 else math.pi - s
+
+
+VIA_CARTESIAN = ("cartesian", "spherical", "cylindrical")     # forms whose way to keplerian_mean passes through cartesian -> keplerian
+
+
+def ill_conditioning(i):
+    """relative error of a state that went through `Form._cartesian_to_keplerian` and back: the inclination comes from
+    arccos(h_z / |h|) (absolute error 1e-16 / sin i) and the argument of latitude from arctan2(z / sin i, r.n), whose first argument
+    inherits the RELATIVE error 1e-16 / sin^2 i of sin i, an error that the node does not compensate.  Observed on the unchanged
+    code over 3000 orbits with sin i in [1e-8, 1e-1]: <= 5.5e-17 / sin^2 i for every form, conic and side; allowed: 4e-16 / sin^2 i
+    (4e-6 at sin i = 1e-5, inside the property's 1e-5; 1.6e-13 at sin i = 0.05)."""
+    return 4e-16 / math.sin(i) ** 2
 
 
 def gen_dt(rng):
@@ -1069,7 +1121,7 @@ def correspondence(ctx):
                     out.fail(f"c05-cartesian-in-out-finiteness", "one of implementation / model is non-finite", inp, observed=impl, expected=mcart)
                     continue
                 if finite(impl):
-                    bad = cart_differs(impl, mcart, 1e-9 * (1 + (n * abs(dt) if math.isfinite(n) else 0)))
+                    bad = cart_differs(impl, mcart, 1e-9 * (1 + (n * abs(dt) if math.isfinite(n) else 0)) + ill_conditioning(xc[2]))
                     if bad:
                         out.fail(f"c05-cartesian-in-out-{inp['propagator']}-{conic}", f"component {bad[0]} of Orbit.propagate on a cartesian orbit differs from the Lean model of the whole "
                                  "call (setter: cartesian -> mean; update; mean -> cartesian)", inp, observed=impl, expected=mcart)
@@ -1342,6 +1394,9 @@ def oracle(ctx, widened):
         for k in range(108 * (12 if big else 2)):
             guarded(out, kepler_case, gen_dated(rng, k, gen_kepler_input))
             guarded(out, j2_case, gen_dated(rng, k, gen_j2_input))
+        # exactly equatorial states (z = v_z = 0), prograde and retrograde
+        for _ in range(400 if big else 60):
+            guarded(out, equatorial_case, gen_equatorial_input(rng))
         for k in range(108 * (4 if big else 1)):
             guarded(out, api_case, dict(gen_dated(rng, k, gen_kepler_input if k % 2 else gen_j2_input), api=True))
         # outside the J2 clause's domain (0 <= e < 1: the secular rates are orbit averages, dM contains sqrt(1 - e^2)): what the code
@@ -1504,12 +1559,22 @@ def _kepler_case(out, inp, H):
     x1 = mean_of(res)
     cond = 1 / min(e, abs(e - 1), 1.0)
     tol = 1e-11 * amp
+    # quasi-equatorial orbits: the node-related angles are conditioned by 1 / sin i; a state that passed through cartesian -> keplerian
+    # carries ill_conditioning(i) (every result is cartesian: the second leg of a composition, the way back and the elements read off a
+    # result always do; the first propagation only when the orbit is given in a form converted through cartesian)
+    si = math.sin(elts[2])
+    ill = ill_conditioning(elts[2])
+    ill_in = ill if form in VIA_CARTESIAN else 0.0
+    qtag = ":quasi-equatorial-" + ("prograde" if elts[2] < 1 else "retrograde") if si < 0.05 else ""
+    ctag += qtag
+    if qtag:
+        out.tally("kepler" + qtag + (":via-cartesian" if ill_in else ""))
     bad = None
     if abs(x1[0] / x0[0] - 1) > tol * cond: bad = "a"
     elif abs(x1[1] - x0[1]) > tol * max(1, e) * cond: bad = "e"
     elif abs(x1[2] - x0[2]) > tol / math.sin(x0[2]): bad = "i"
     elif angdiff(x1[3], x0[3]) > tol / math.sin(x0[2]): bad = "raan"
-    elif angdiff(x1[4], x0[4]) > tol * cond / min(e, 1.0): bad = "argp"
+    elif angdiff(x1[4], x0[4]) > tol * cond / min(e, 1.0) / si + 2 * ill: bad = "argp"
     if bad:
         out.fail(f"kepler-element-{bad}-{conic}" + H.tag() + ctag, f"Kepler propagation changes {bad}", inp, observed=x1, expected=x0)
     Mexp = x0[5] + n * dt
@@ -1520,7 +1585,7 @@ def _kepler_case(out, inp, H):
     # 2. independent universal-variable solution, forwards and backwards (property: 1e-5; used: 1e-9 + 1e-10 n|dt|, capped at 1e-5)
     ref = universal_kepler(mu, c0[:3], c0[3:], dt)
     out.count(key=("uv", form, tuple(elts), dt, H.epoch, tuple(H.via)), nontrivial=dt != 0, kind=f"universal-variable-{conic}-{'back' if dt < 0 else 'fwd'}")
-    if not rel_err(c1, ref) <= min(1e-5, 1e-9 + 1e-10 * amp) + H.slack(n, e):
+    if not rel_err(c1, ref) <= min(1e-5, 1e-9 + 1e-10 * amp) + H.slack(n, e) + ill_in:
         out.fail(f"kepler-universal-variable-{conic}" + H.tag() + ctag, "Kepler.propagate differs from the universal-variable two-body solution", inp,
                  observed=c1, expected=ref, elapsed_s=dt)
     # 3. composition and inverse
@@ -1536,7 +1601,7 @@ def _kepler_case(out, inp, H):
         if not finite(two):
             fam = nonfinite_family("Kepler", x0, mu, t1) if not finite(mid) else nonfinite_family("Kepler", mean_of(mid), mu, t2)
             out.fail(fam, "Kepler.propagate returns a non-finite state inside the property's domain (composition leg)", inp, observed=two)
-        elif not rel_err(two, c1) <= 3e-9 * amp2 * cond + 2 * H.slack(n, e):
+        elif not rel_err(two, c1) <= 3e-9 * amp2 * cond + 2 * H.slack(n, e) + 2 * ill:
             out.fail(f"kepler-compose-{conic}" + H.tag() + ctag, "propagate(t1) then propagate(t2) differs from propagate(t1+t2)", inp, observed=two, expected=c1,
                      handed=H.used[-3:])
     ab, tb = H.arg(res.date, -dt)
@@ -1544,7 +1609,7 @@ def _kepler_case(out, inp, H):
     out.count(key=("inverse", form, tuple(elts), dt, H.epoch, tuple(H.via)), nontrivial=dt != 0, kind=f"inverse-{conic}")
     if not finite(back):
         out.fail(nonfinite_family("Kepler", x1, mu, -dt), "Kepler.propagate returns a non-finite state inside the property's domain (way back)", inp, observed=back)
-    elif not rel_err(back, c0) <= 3e-9 * amp * cond + 2 * H.slack(n, e):
+    elif not rel_err(back, c0) <= 3e-9 * amp * cond + 2 * H.slack(n, e) + 2 * ill:
         out.fail(f"kepler-inverse-{conic}" + H.tag() + ctag, "propagate(-t) after propagate(t) does not return to the initial state", inp, observed=back, expected=c0)
     # 4. periodicity of bound orbits
     if conic == "ell":
@@ -1555,9 +1620,65 @@ def _kepler_case(out, inp, H):
             per = [float(v) for v in orb.propagate(ap)]
             out.count(key=("periodic", form, tuple(elts), kk, H.epoch, tuple(H.via)), kind="periodic")
             # the period is rounded to the microsecond by timedelta: allow the motion during k µs at perigee speed
-            if not rel_err(per, c0) <= 3e-9 * (1 + TWO_PI * abs(kk)) * cond + abs(kk) * 1e-6 * n * 10 / (1 - e) ** 2 + H.slack(n, e):
+            if not rel_err(per, c0) <= 3e-9 * (1 + TWO_PI * abs(kk)) * cond + abs(kk) * 1e-6 * n * 10 / (1 - e) ** 2 + H.slack(n, e) + ill_in:
                 out.fail("kepler-periodic" + H.tag() + ctag, f"state after {kk} period(s) differs from the initial state", inp, observed=per, expected=c0)
 
+
+
+def gen_equatorial_input(rng):
+    """an EXACTLY equatorial state — z = 0 and v_z = 0 as floating-point zeros, what a user writes for a geostationary or an
+    equatorial transfer orbit — prograde or retrograde, elliptic or hyperbolic, built from planar elements without any conversion
+    by the library, handed in in one of the forms that go through cartesian -> keplerian"""
+    conic = "ell" if rng.random() < 0.6 else "hyp"
+    a, e = gen_elts(rng, conic)[:2]
+    lon, nu = rng.uniform(0, TWO_PI), rng.uniform(0, TWO_PI) if conic == "ell" else rng.uniform(-1.5, 1.5)
+    if conic == "hyp":
+        nu *= math.acos(-1 / e) / 2
+    return {"equatorial": True, "propagator": rng.choice(["Kepler", "Kepler", "J2"]) if conic == "ell" else "Kepler", "form": rng.choice(VIA_CARTESIAN),
+            "frame": rng.choice(FRAMES), "sense": rng.choice([1, -1]), "a": a, "e": e, "lon_perigee": lon, "nu": nu, "dt": gen_dt(rng)}
+
+
+def equatorial_case(out, inp):
+    """Kepler (J2) propagation of an exactly equatorial state: finite, propagate(0) gives the state back, Kepler agrees with the
+    universal-variable solution (which has no singular plane), J2 keeps the state in the equatorial plane on the same conic"""
+    from beyond.orbits import Orbit, StateVector
+    from beyond.dates import Date, timedelta
+    from beyond import constants as K
+    prop, form, s, a, e, w, nu, dt = (inp[k] for k in ("propagator", "form", "sense", "a", "e", "lon_perigee", "nu", "dt"))
+    mu = float(K.Earth.mu)
+    p = a * (1 - e * e)
+    r = p / (1 + e * math.cos(nu))
+    th = w + s * nu
+    vr, vt = math.sqrt(mu / p) * e * math.sin(nu), math.sqrt(mu / p) * (1 + e * math.cos(nu))
+    c0 = [r * math.cos(th), r * math.sin(th), 0.0, vr * math.cos(th) - s * vt * math.sin(th), vr * math.sin(th) + s * vt * math.cos(th), 0.0]
+    d0 = Date(2020, 5, 24, 3, 7, 11)
+    coords = c0 if form == "cartesian" else [float(v) for v in StateVector(c0, d0, "cartesian", inp["frame"]).copy(form=form)]
+    side = "prograde" if s > 0 else "retrograde"
+    conic = "ell" if e < 1 else "hyp"
+    out.count(key=("equatorial", prop, form, s, a, e, w, nu, dt), nontrivial=dt != 0, kind=f"exactly-equatorial-{prop}-{side}-{conic}", form=form)
+    orb = Orbit(coords, d0, form, inp["frame"], prop)
+    n = mean_motion(mu, a)
+    for t in (0.0, dt):
+        res = [float(v) for v in orb.propagate(timedelta(seconds=t))]
+        if not finite(res):
+            out.fail(f"exactly-equatorial-{side}-nonfinite", f"{prop}.propagate of an exactly equatorial {side} state (z = 0, v_z = 0) returns a "
+                     "non-finite state, silently", inp, observed=res, expected="a finite state", cartesian=c0, elapsed_s=t)
+            return
+        if prop == "Kepler" or t == 0.0:
+            ref = universal_kepler(mu, c0[:3], c0[3:], t) if t else c0
+            if not rel_err(res, ref) <= min(1e-5, 1e-9 + 1e-10 * (1 + n * abs(t))):
+                out.fail(f"exactly-equatorial-{side}-" + ("initial-state" if t == 0.0 else f"universal-variable-{conic}"),
+                         f"{prop}.propagate({t} s) of an exactly equatorial {side} state differs from " +
+                         ("the state itself" if t == 0.0 else "the universal-variable two-body solution"), inp, observed=res, expected=ref, cartesian=c0, elapsed_s=t)
+                return
+        else:
+            # J2 on an equatorial orbit: the plane is kept, so are the radius and speed the conic has at the drifted anomaly: |h| and energy
+            h0, h1 = c0[0] * c0[4] - c0[1] * c0[3], res[0] * res[4] - res[1] * res[3]
+            en = lambda c: sum(v * v for v in c[3:]) / 2 - mu / math.sqrt(sum(v * v for v in c[:3]))
+            if abs(res[2]) > 1e-9 * r or abs(h1 / h0 - 1) > 1e-9 or abs(en(res) / en(c0) - 1) > 1e-9:
+                out.fail(f"j2-exactly-equatorial-{side}-plane-or-conic", "J2.propagate of an exactly equatorial state leaves the equatorial plane or changes |h| / the energy",
+                         inp, observed=res, expected={"z": 0.0, "h": h0, "energy": en(c0)}, cartesian=c0, elapsed_s=t)
+                return
 
 
 def gen_dated(rng, k, base):
@@ -1789,6 +1910,11 @@ def _j2_case(out, inp, H):
     cond = 1 / min(e, 1 - e)
     tol = 1e-11 * amp
     sl = 0 if H.exact else n * 3e-6
+    si = math.sin(i)
+    ill = ill_conditioning(i)             # see _kepler_case
+    qtag = ":quasi-equatorial-" + ("prograde" if i < 1 else "retrograde") if si < 0.05 else ""
+    if qtag:
+        out.tally("j2" + qtag + (":via-cartesian" if form in VIA_CARTESIAN else ""))
     x1 = mean_of(res)
     rO, rw, rM = j2_rates(mu, a, e, i)
     bad = None
@@ -1796,10 +1922,10 @@ def _j2_case(out, inp, H):
     elif abs(x1[1] - x0[1]) > tol * cond: bad = ("e", x1[1], x0[1])
     elif abs(x1[2] - x0[2]) > tol / math.sin(i): bad = ("i", x1[2], x0[2])
     elif angdiff(x1[3], x0[3] + rO * dt) > tol / math.sin(i) + sl: bad = ("raan-rate", x1[3], (x0[3] + rO * dt) % TWO_PI)
-    elif angdiff(x1[4], x0[4] + rw * dt) > tol * cond / e + sl: bad = ("argp-rate", x1[4], (x0[4] + rw * dt) % TWO_PI)
+    elif angdiff(x1[4], x0[4] + rw * dt) > tol * cond / e / si + 2 * ill + sl: bad = ("argp-rate", x1[4], (x0[4] + rw * dt) % TWO_PI)
     elif angdiff(x1[5], x0[5] + rM * dt) > tol * cond / e + sl: bad = ("M-rate", x1[5], (x0[5] + rM * dt) % TWO_PI)
     if bad:
-        out.fail(f"j2-{bad[0]}" + H.tag(), f"J2 propagation: {bad[0]} is not constant / does not drift at the first-order secular rate "
+        out.fail(f"j2-{bad[0]}" + H.tag() + qtag, f"J2 propagation: {bad[0]} is not constant / does not drift at the first-order secular rate "
                  "(over the time elapsed between the instants of the epoch and of the requested date)", inp, observed=bad[1], expected=bad[2],
                  elapsed_s=dt, handed=H.used[-1])
     if special == "polar" and angdiff(x1[3], x0[3]) > tol:
@@ -1819,15 +1945,15 @@ def _j2_case(out, inp, H):
     a2, t2 = H.arg(mid.date, dt - t1 if H.dated else t2)
     two = [float(v) for v in mid.propagate(a2)]
     out.count(key=("j2-compose", form, tuple(elts), t1, t2, H.epoch, tuple(H.via)), kind="j2-compose")
-    if not finite(two) or not rel_err(two, c1) <= 3e-9 * (1 + n * (abs(t1) + abs(t2))) * cond + 2 * H.slack(n, e):
-        out.fail("j2-compose" + H.tag(), "J2: propagate(t1) then propagate(t2) differs from propagate(t1+t2)", inp, observed=two, expected=c1, handed=H.used[-3:])
+    if not finite(two) or not rel_err(two, c1) <= 3e-9 * (1 + n * (abs(t1) + abs(t2))) * cond + 2 * H.slack(n, e) + 2 * ill:
+        out.fail("j2-compose" + H.tag() + qtag, "J2: propagate(t1) then propagate(t2) differs from propagate(t1+t2)", inp, observed=two, expected=c1, handed=H.used[-3:])
     # inverse: back to the instant of the epoch, handed in yet another way
     ab, tb = H.arg(res.date, -dt)
     back = [float(v) for v in res.propagate(ab)]
     c0 = [float(v) for v in orb.copy(form="cartesian")]
     out.count(key=("j2-inverse", form, tuple(elts), dt, H.epoch, tuple(H.via)), nontrivial=dt != 0, kind="j2-inverse")
-    if not finite(back) or not rel_err(back, c0) <= 3e-9 * amp * cond + 2 * H.slack(n, e):
-        out.fail("j2-inverse" + H.tag(), "J2: propagate(-t) after propagate(t) does not return to the initial state", inp, observed=back, expected=c0)
+    if not finite(back) or not rel_err(back, c0) <= 3e-9 * amp * cond + 2 * H.slack(n, e) + 2 * ill:
+        out.fail("j2-inverse" + H.tag() + qtag, "J2: propagate(-t) after propagate(t) does not return to the initial state", inp, observed=back, expected=c0)
 
 
 def replay(f):
@@ -1837,6 +1963,10 @@ def replay(f):
     if isinstance(inp, dict) and inp.get("m2e"):
         with _quiet():
             guarded(out, m2e_case, inp)
+        return out
+    if isinstance(inp, dict) and inp.get("equatorial"):
+        with _quiet():
+            guarded(out, equatorial_case, inp)
         return out
     if not isinstance(inp, dict) or "mean_elements" not in inp:
         return oracle(core.Ctx(ID, "quick", 0), False)
